@@ -227,6 +227,32 @@ def case_task(states):
                 got = torchutils.gaussian_kde_log_eval(smp, q[:, None, :])
                 if not torch.allclose(got, ref, atol=1e-9):
                     fail("density", "gaussian_kde_log_eval (%d centres, %d dims): %s vs the mixture of %d-unit Gaussians %s" % (n, dd, got.tolist(), dd, ref.tolist()))
+            elif cls == "MoG3":
+                k, arch, draw = int(par["k"]), str(par["arch"]), int(par["draw"])
+                torch.manual_seed(100 * draw + k)      # the random masks are drawn from the global generator
+                m = MADEMoG(3, 12, None, num_blocks=2, num_mixture_components=k, use_residual_blocks=(arch == "residual"), random_mask=(arch == "feedforward_random")).double()
+                g = torch.Generator().manual_seed(5 + draw)
+                with torch.no_grad():
+                    for p_ in m.parameters():
+                        p_.add_(0.15 * torch.randn(p_.shape, generator=g, dtype=torch.float64))
+                m.eval()
+                # product trapezoid rule with step 0.1 on [-9, 9]^3, and the same with step 0.2 (every second node):
+                # for components wider than the step both are exact to many digits; if they disagree the density is
+                # too narrow somewhere for this grid and there is no verdict
+                ax = torch.linspace(-9.0, 9.0, 181, dtype=torch.float64)
+                fine = coarse = 0.0
+                with torch.no_grad():
+                    gy, gz = torch.meshgrid(ax, ax, indexing="ij")
+                    for i0, x0 in enumerate(ax):
+                        q = torch.stack([x0.expand_as(gy), gy, gz], dim=-1).reshape(-1, 3)
+                        dens = torch.exp(m.log_prob(q)).reshape(181, 181)
+                        fine += float(dens.sum()) * 0.1 ** 3
+                        if i0 % 2 == 0:
+                            coarse += float(dens[::2, ::2].sum()) * 0.2 ** 3
+                if abs(fine - coarse) > 2e-4:
+                    out["skipped"] = out.get("skipped", 0) + 1
+                elif abs(fine - 1.0) > 2e-3:
+                    fail("not_normalised", "MADEMoG(features=3, components=%d, %s blocks, mask draw %d): exp(log_prob) integrates to %.6f over R^3" % (k, arch, draw, fine))
             elif cls == "MoG":
                 dd, k, rows = int(par["d"]), int(par["k"]), int(par["rows"])
                 torch.manual_seed(dd * 10 + k)
